@@ -13,6 +13,7 @@ Inductive err :=
 | EUnsupported  (* construct outside the translated grammar *)
 | EUB           (* signed overflow, division by zero *)
 | EFuel         (* call depth exhausted *)
+| ESpin         (* the signature search of ObjectHeaderBase::read does not end *)
 | EType.        (* ill-typed IR (scalar op on container etc.) *)
 
 Inductive res (A : Type) := Ok (a : A) | Err (e : err).
